@@ -368,7 +368,9 @@ Returns:
     print(0, file=outfile)
     print(len(myattrs), file=outfile)
     for key in myattrs:
-        print('%s: %s' % (key, getattr(f, key, '')), file=outfile)
+        # one header line per attribute: the counts above rely on it
+        val = ' '.join(str(getattr(f, key, '')).splitlines())
+        print('%s: %s' % (key, val), file=outfile)
 
     vals = [filled(f.variables[f.INDEPENDENT_VARIABLE][:]).ravel()]
     keys = [f.INDEPENDENT_VARIABLE]
